@@ -1868,7 +1868,8 @@ class TLSConnection(TLSRecordLayer):
                             bytearray(b''),  # no session_id in TLS 1.3
                             serverHello.cipher_suite,
                             None,  # no SRP
-                            clientCertChain,
+                            # sent only in answer to a CertificateRequest
+                            clientCertChain if certificate_request else None,
                             certificate.cert_chain if certificate else None,
                             None,  # no TACK
                             False,  # no TACK in hello
